@@ -98,7 +98,7 @@ def sl(t, nb, full, beta):
     """beta-th slice of tensor `t` whose first `nb` dims are batch dims broadcastable to `full`"""
     t = t if isinstance(t, torch.Tensor) else T(t)
     ev = t.shape[nb:]
-    return t.expand(*full, *ev)[tuple(beta)]
+    return t.expand(tuple(full) + tuple(ev))[tuple(beta)]
 
 
 def slice_recipe(r, full, beta):
@@ -130,25 +130,26 @@ def spread(outs):
     return best
 
 
-def judge(ctx, name, got, reps, full, ev_rank, rtol=RTOL, atol=ATOL, own_batch=None, scale=None):
-    """got: batched output (batch + event); reps: replica outputs in the order of betas(full).
+def judge(ctx, name, got, reps, full, rtol=RTOL, atol=ATOL, own_batch=None, scale=None):
+    """got: batched output (batch + event); reps: replica outputs (event) in the order of betas(full).
     The batch shape of `got` must be `full`; or, when `own_batch` is given (outputs that do not see all of the data, e.g. a
     training-mode prior or a KL term), exactly `own_batch`, a shape that broadcasts into `full`; `own_batch="any"` accepts
     every shape that broadcasts into `full`."""
     got = dense(got).detach()
     reps = [dense(r).detach() for r in reps]
     ev = tuple(reps[0].shape)
-    want = torch.stack(reps).reshape(*full, *ev)
-    gb = tuple(got.shape[: max(got.dim() - ev_rank, 0)])
+    full = tuple(full)
+    want = torch.stack(reps).reshape(full + ev)
+    gb = tuple(got.shape[: max(got.dim() - len(ev), 0)])
     if own_batch == "any":
-        ok = compatible(gb, full) and bshape(gb, full) == list(full)
+        ok = compatible(gb, full) and tuple(bshape(gb, full)) == full
     else:
-        ok = gb == tuple(full if own_batch is None else own_batch)
+        ok = gb == (full if own_batch is None else tuple(own_batch))
     if not ok or tuple(got.shape[len(gb):]) != ev:
         ctx.fail(name + ".shape", "shape", f"batched output has shape {tuple(got.shape)}, expected batch shape "
-                 f"{tuple(full if own_batch in (None, 'any') else own_batch)} + event {ev}")
+                 f"{full if own_batch in (None, 'any') else tuple(own_batch)} + event {ev}")
         return False
-    return ctx.close(name, got.expand(*full, *ev), want, rtol=rtol, atol=atol, scale=scale)
+    return ctx.close(name, got.expand(full + ev), want, rtol=rtol, atol=atol, scale=scale)
 
 
 def nontrivial(ctx, pb, db, reps_dense):
@@ -208,7 +209,10 @@ def run_kernel(case, ctx: Ctx, build=None, desc=None, prep=None):
         with ctx.observing("replica"):
             kb = build(rb)
             reps.append(eval_kernel(kb, sl(x1, nb, full, beta), None if x2 is None else sl(x2, nb, full, beta), case["lazy"], case["diag"]))
-    judge(ctx, "diag" if case["diag"] else "value", got, reps, full, 1 if case["diag"] else 2)
+    if not all(bool(torch.isfinite(v).all()) for v in reps):
+        # e.g. PolynomialKernelGrad(power=1) at x1.x2 + offset == 0 (0 * inf): a value question (C05), not a batch question
+        raise Discard("non-finite kernel value in the non-batched replica")
+    judge(ctx, "diag" if case["diag"] else "value", got, reps, full)
     nontrivial(ctx, pb, db, reps)
     pat_labels(ctx, pb, db)
     return k, got, reps
@@ -465,7 +469,7 @@ def run_mean(case, ctx: Ctx):
     for beta in betas(full):
         with ctx.observing("replica"), torch.no_grad():
             reps.append(build_mean8(slice_recipe(r, full, beta))(sl(x, len(db), full, beta)))
-    judge(ctx, "value", got, reps, full, reps[0].dim())
+    judge(ctx, "value", got, reps, full)
     nontrivial(ctx, pb, db, reps)
     pat_labels(ctx, pb, db)
     ctx.label(f"mean={r['m']}")
@@ -584,17 +588,14 @@ def lik_case(draw):
 
 
 def _lik_outputs(r, mod, mean, cov, y, n):
-    """dict name -> (tensor, event rank) of what a Gaussian-family likelihood hands out for f ~ N(mean, cov)"""
+    """what a Gaussian-family likelihood hands out for f ~ N(mean, cov)"""
     if r["l"] == "Multitask":
-        t = r["t"]
-        dist = MultitaskMultivariateNormal(mean.reshape(*mean.shape[:-1], n, t), cov)
+        dist = MultitaskMultivariateNormal(mean.reshape(*mean.shape[:-1], n, r["t"]), cov)
     else:
         dist = MultivariateNormal(mean, cov)
     marg = mod(dist)
-    out = {"marginal.mean": (marg.mean, dist.mean.dim() - len(dist.batch_shape)), "marginal.covariance": (marg.covariance_matrix, 2),
-           "expected_log_prob": (mod.expected_log_prob(y, dist), None), "log_marginal": (mod.log_marginal(y, dist), None)}
-    ev = len(dist.event_shape)
-    return {k: (v, ev if e is None else e) for k, (v, e) in out.items()}
+    return {"marginal.mean": marg.mean, "marginal.covariance": marg.covariance_matrix,
+            "expected_log_prob": mod.expected_log_prob(y, dist), "log_marginal": mod.log_marginal(y, dist)}
 
 
 def run_lik(case, ctx: Ctx):
@@ -618,7 +619,7 @@ def run_lik(case, ctx: Ctx):
         for beta in betas(full):
             with ctx.observing("replica"):
                 reps.append(call(build_lik(slice_lik(r, full, beta)), sl(x, nb, full, beta)))
-        judge(ctx, "noise_covar", got, reps, full, reps[0].dim())
+        judge(ctx, "noise_covar", got, reps, full)
         nontrivial(ctx, pbe, db, reps)
         ctx.label(f"via={case['via']}")
     else:
@@ -631,10 +632,10 @@ def run_lik(case, ctx: Ctx):
             with ctx.observing("replica"), torch.no_grad():
                 reps.append(_lik_outputs(r, build_lik(slice_lik(r, full, beta)), sl(mean, nb, full, beta), sl(cov, nb, full, beta),
                                          sl(y, nb, full, beta), n))
-        for key, (g, ev) in got.items():
-            # sums of n log-densities: relative 1e-10 of the terms, not of a possibly cancelling total
-            judge(ctx, key, g, [rp[key][0] for rp in reps], full, ev, atol=1e-10 if "log" in key else ATOL)
-        nontrivial(ctx, pbe, db, [rp["marginal.covariance"][0] for rp in reps])
+        for key, g in got.items():
+            # log-densities are sums of terms of size ~1..100 that may cancel: absolute 1e-10 * scale
+            judge(ctx, key, g, [rp[key] for rp in reps], full, atol=1e-10 if "log" in key else ATOL)
+        nontrivial(ctx, pbe, db, [torch.cat([rp["marginal.covariance"].reshape(-1), rp["log_marginal"].reshape(-1)]) for rp in reps])
     pat_labels(ctx, pbe, db)
     ctx.label(f"likelihood={lik_name(r)}")
 
@@ -689,8 +690,15 @@ def exact_case(draw):
                        pb if not mixed else sub_shape(draw, pb), n, nbs=([], db)))
     if mixed:
         mean, kernel = draw(thin_out(mean, 1)), draw(thin_out(kernel, 1))
-    # training inputs may be shared along some of the data batch dimensions; the targets carry the data batch shape
-    xb = db if draw(st.integers(0, 2)) else sub_shape(draw, db)
+    # the targets carry the data batch shape; the training inputs may be shared along data batch dimensions that the
+    # hyper-parameters span (e.g. the "batch independent multi-output" pattern: model (2,), X (n, d)): ExactGP documents
+    # targets of the shape of the prior's batch, so X may only be thinned where model x X still produces the full batch
+    pbe = bshape(recipe_batch(mean), recipe_batch(kernel), lik_batch(lik))
+    xb = db
+    if draw(st.integers(0, 2)) == 0:
+        cand = sub_shape(draw, db)
+        if bshape(pbe, cand) == bshape(pbe, db) and bshape(recipe_batch(mean), recipe_batch(kernel), cand) == bshape(pbe, db):
+            xb = cand
     full = bshape(pb, db)
     tbs = [s for s in SHAPES if compatible(s, full) and numel(bshape(s, full)) <= 9]
     tb = draw(st.sampled_from([db, db, full, []] + tbs))
@@ -719,14 +727,11 @@ def _exact_outputs(case, r_mean, r_kernel, r_lik, X, y, Xs):
     return out
 
 
-_EXACT_EV = {"prior.mean": 1, "prior.covariance": 2, "train.marginal_covariance": 2, "mll": 0, "posterior.mean": 1,
-             "posterior.covariance": 2, "predictive.covariance": 2}
-
-
 def run_exact(case, ctx: Ctx):
     pb, db, xb, tb = case["pb"], case["db"], case["xb"], case["tb"]
     pbe = bshape(recipe_batch(case["mean"]), recipe_batch(case["kernel"]), lik_batch(case["lik"]))
-    f_prior = bshape(pbe, xb)  # what the training-mode prior sees
+    f_prior = bshape(recipe_batch(case["mean"]), recipe_batch(case["kernel"]), xb)  # what the training-mode prior sees
+    f_marg = bshape(pbe, xb)  # ... the likelihood applied to it
     f_train = bshape(pbe, db)  # ... the marginal log likelihood (targets carry db)
     full = bshape(f_train, tb)  # ... the posterior
     ctx.cls = f"exact|{lik_name(case['lik'])}|{pattern(pbe, db)}|pb{pbe}|db{db}|xb{xb}|tb{tb}{'|mixed' if case['mixed'] else ''}"
@@ -747,11 +752,11 @@ def run_exact(case, ctx: Ctx):
     tol = G.chol_tol(kappa, kern.smooth_at_zero(case["kernel"]))  # DESIGN 1.4: one dense solve
     for key, g in got.items():
         train_side = key in ("prior.mean", "prior.covariance", "train.marginal_covariance", "mll")
-        own = None if not train_side else (f_prior if key.startswith("prior") else f_train)
+        own = None if not train_side else (f_prior if key.startswith("prior") else (f_marg if key.startswith("train") else f_train))
         solve = key in ("mll", "posterior.mean", "posterior.covariance", "predictive.covariance")
         vals = [rp[key] for rp in reps]
         sc = max(1.0, max(float(v.abs().max()) for v in vals))
-        judge(ctx, key, g, vals, full, _EXACT_EV[key], rtol=tol if solve else RTOL, atol=tol if solve else ATOL, own_batch=own,
+        judge(ctx, key, g, vals, full, rtol=tol if solve else RTOL, atol=tol if solve else ATOL, own_batch=own,
               scale=sc if solve else None)
     nontrivial(ctx, pbe, db, [torch.cat([rp["posterior.mean"], rp["posterior.covariance"].reshape(-1), rp["mll"].reshape(1)]) for rp in reps])
     pat_labels(ctx, pbe, db)
@@ -831,10 +836,10 @@ def run_svgp(case, ctx: Ctx):
         raise Discard("ill-conditioned inducing covariance (kappa>1e+06)")
     # the whitening solve L^-1 K_zx enters q(f) twice (L^-T S L^-1): 1e3 * eps * kappa with kappa <= 1e6, floor 1e-9
     tol = max(G.chol_tol(kappa), 1e-9)
-    for key, ev, own in (("qf.mean", 1, None), ("qf.covariance", 2, None), ("kl", 0, "any"), ("elbo", 0, None)):
+    for key, own in (("qf.mean", None), ("qf.covariance", None), ("kl", "any"), ("elbo", None)):
         vals = [rp[key] for rp in reps]
         sc = max(1.0, max(float(v.abs().max()) for v in vals))
-        judge(ctx, key, got[key], vals, full, ev, rtol=tol, atol=tol, own_batch=own, scale=sc)
+        judge(ctx, key, got[key], vals, full, rtol=tol, atol=tol, own_batch=own, scale=sc)
     nontrivial(ctx, pbe, db, [torch.cat([rp["qf.mean"], rp["qf.covariance"].reshape(-1), rp["elbo"].reshape(1), rp["kl"].reshape(1)]) for rp in reps])
     pat_labels(ctx, pbe, db)
     ctx.label("model=svgp", f"strategy={r['strategy']}", f"dist={r['dist']}", f"training={case['training']}",
@@ -850,8 +855,8 @@ def list_case(draw):
     k = draw(st.integers(1, 3))
     d = draw(st.integers(1, 2))
     members = []
+    pb, db = draw(st.sampled_from([([], [])] * 2 + [pd for pd in PAIRS if numel(bshape(*pd)) > 1]))  # one MLL batch shape for all members
     for _ in range(k):
-        pb, db = draw(batch_pair())
         n = draw(st.integers(1, 4))
         ns = draw(st.integers(1, 3))
         members.append({"pb": pb, "db": db, "n": n, "ns": ns, "mean": draw(kern.mean_recipe(d, pb)),
